@@ -164,8 +164,13 @@ def classify(diags, lines, fns):
                 k -= 1
             if k > 0:
                 src = lines[k - 1]["src"]
+        # a failure whose primary span is a ghost line of a proof hint (assert / lemma call inside `proof { }`), as opposed to a
+        # contract clause (labelled or not: requires / ensures / invariant lines) or a line of real code
+        kinds = [(meta(s2)[0] or {}).get("kind") for s2 in spans]
+        hint = label is None and ("assertion failed" in msg or "precondition not satisfied" in msg) and \
+            bool(kinds) and all(k == "ghost" for k in kinds)
         failed.append(dict(fn=fn, label=label, tags=tags, message=msg, gen_line=pln, repo=src, clause=clause_text,
-                           rendered=d.get("rendered", "")[:2500]))
+                           rendered=d.get("rendered", "")[:2500], hint=hint))
     return failed, other, rlimit
 
 
@@ -505,6 +510,11 @@ def decide(prop, sess, tier):
     labelled, fns, implicit = obligations_for(sess, prop)
     if not labelled and not implicit:
         raise Undecided("zero obligations for %s (vacuous)" % prop)
+    if failed and all(f.get("hint") for f in failed):
+        # only assertions / lemma calls inside proof hints failed for this property, no contract clause and no obligation of the
+        # code: the proof script no longer fits the function (e.g. a hint now sits at the wrong statement); no verdict
+        raise Undecided("only proof hints failed in %s (no contract clause, no obligation of the code): the proof script does not fit "
+                        "this tree; undecided, not a violation" % sorted({str(f["fn"]) for f in failed}))
     cside = [f for f in sess.failed if f["label"] is None and f["fn"] and str(f["fn"]).startswith("contracts:")]
     if cside and not failed:
         # a lemma or a stand-in of the contract files failed and no obligation of the code did: the proof script is broken on
@@ -730,7 +740,8 @@ def main():
             has_cex = any(f.get("counterexample") for f in new)
             print("VIOLATION property=%s replay=%s%s" % (p, path, "" if has_cex else " no-failing-input-found"))
             for f in new[:8]:
-                print("  failed obligation: %s [%s] %s at %s" % (f["fn"], f["label"] or "implicit", f["message"], f["repo"]))
+                print("  failed obligation: %s [%s] %s at %s%s" % (f["fn"], f["label"] or "implicit", f["message"], f["repo"],
+                                                                    " (proof hint)" if f.get("hint") else ""))
             rc = max(rc, 1) if rc != 2 else 2
             rc = 1
         else:
